@@ -48,6 +48,7 @@ type ctok struct {
 }
 
 func contentTokensRaw(text string) []ctok {
+	_, exactHops := rangeLiteralsAt(text)
 	lexer := parser.NewCypherLexer(antlr.NewInputStream(text))
 	lexer.RemoveErrorListeners()
 	var out []ctok
@@ -196,6 +197,10 @@ func contentTokensRaw(text string) []ctok {
 			}
 		}
 		out = append(out, ctok{txt, false, t.GetText()})
+		if exactHops[t.GetStart()] {
+			// `*n` is the exact length n..n
+			out = append(out, ctok{"..", false, ".."}, ctok{txt, false, t.GetText()})
+		}
 	}
 	return out
 }
@@ -338,7 +343,15 @@ func multisetDiff(a, b []string) (lost, gained []string) {
 // rangeLiterals: the (start, dots, end) of every `*a..b` directly inside a relationship detail `-[ … ]-` (not inside its
 // property map or any nested bracket), in order.
 func rangeLiterals(text string) []string {
+	out, _ := rangeLiteralsAt(text)
+	return out
+}
+
+// rangeLiteralsAt also returns the token start offsets of the integer of every exact-length literal `*n` (no range operator).
+// `*n` MEANS n..n: it is reported as n/true/n, so that `*2` read as `*2..` differs and `*2` written back as `*2..2` does not.
+func rangeLiteralsAt(text string) ([]string, map[int]bool) {
 	var out []string
+	exact := map[int]bool{}
 	toks := []antlr.Token{}
 	lexer := parser.NewCypherLexer(antlr.NewInputStream(text))
 	lexer.RemoveErrorListeners()
@@ -393,12 +406,16 @@ func rangeLiterals(text string) []string {
 				if a == "" && b == "" {
 					dots = false
 				}
+				if a != "" && !dots {
+					exact[toks[j+1].GetStart()] = true
+					b, dots = a, true
+				}
 				out = append(out, fmt.Sprintf("%s/%v/%s", a, dots, b))
 			}
 		}
 		i = j
 	}
-	return out
+	return out, exact
 }
 
 // ---------------------------------------------------------------------------------- runner
@@ -424,6 +441,48 @@ func c07FormatSafe(m *cypher.RegularQuery) (s string, err error) {
 		}
 	}()
 	return format.RegularQuery(m, false)
+}
+
+func c07EmitsSame(m *cypher.RegularQuery, text string) bool {
+	again, err := c07FormatSafe(m)
+	return err == nil && again == text
+}
+
+// eraseParentheticals removes every (cypher.Parenthetical (Expression X)) wrapper of a model S-expression, leaving X.
+func eraseParentheticals(sx string) string {
+	const open = "(cypher.Parenthetical (Expression "
+	for {
+		i := strings.Index(sx, open)
+		if i < 0 {
+			return sx
+		}
+		depth, inStr, j := 0, false, i
+		for ; j < len(sx); j++ {
+			c := sx[j]
+			if inStr {
+				if c == '\\' {
+					j++
+				} else if c == '"' {
+					inStr = false
+				}
+				continue
+			}
+			if c == '"' {
+				inStr = true
+			} else if c == '(' {
+				depth++
+			} else if c == ')' {
+				depth--
+				if depth == 0 {
+					break
+				}
+			}
+		}
+		if j >= len(sx) || j-1 < i+len(open) {
+			return sx
+		}
+		sx = sx[:i] + sx[i+len(open):j-1] + sx[j+1:]
+	}
 }
 
 func clip(xs []string, n int) string {
@@ -490,6 +549,12 @@ func (r *c07Runner) Step(t []string, raw string) string {
 			case ToSexp(m2) == modelSx:
 				rt = "same"
 				r.stats.Inc("roundtrip_same")
+			case eraseParentheticals(ToSexp(m2)) == eraseParentheticals(modelSx) && c07EmitsSame(m2, text):
+				// the emitter wrote parentheses the precedence of its operand requires (format.writeOperand): the re-read model has an
+				// explicit Parenthetical there and is emitted as the same text again
+				rt = "same"
+				r.stats.Inc("roundtrip_same")
+				r.stats.Inc("roundtrip_same_modulo_emitter_parentheses")
 			default:
 				rt = "differ"
 			}
@@ -782,6 +847,11 @@ type c07Gen struct {
 	rareW    int
 	fuel     int
 	lastRule string
+	// steering towards one alternative of a terminal-only group (c07alts.go)
+	target *g4Term
+	choice int
+	dist   map[*g4Term]int
+	hit    bool
 }
 
 func (c *c07Gen) lexSample(name string) string {
@@ -999,6 +1069,15 @@ var c07Fixed = []string{
 }
 
 func (c07Suite) Gen(rng *Rng, tier string, w *bufio.Writer, stats *Stats) {
+	if tier == "alts" {
+		// the generator's table of keyword / operator alternatives, one per line (compared with the table Lean computes from Grammar.lean)
+		if g, err := loadG4(); err == nil {
+			for _, a := range g.keywordAlternatives() {
+				fmt.Fprintf(w, "%s\n", a.key())
+			}
+		}
+		return
+	}
 	thorough := tier == "thorough"
 	n := 0
 	emit := func(tag, q string) {
@@ -1058,6 +1137,17 @@ func (c07Suite) Gen(rng *Rng, tier string, w *bufio.Writer, stats *Stats) {
 	for _, s := range numericCases(rng, npos) {
 		emit("num", s)
 	}
+	// (d) empty maps / lists / strings in every expression position; (e) dangling sigils and operators without operands
+	for _, s := range slotCases(rng, emptyLits, exprPositions, 0) {
+		emit("empty", s)
+	}
+	ndang := 6
+	if thorough {
+		ndang = 0
+	}
+	for _, s := range slotCases(rng, danglingBits, exprPositions, ndang) {
+		emit("dangling", s)
+	}
 	// (c) multi-byte / invalid UTF-8 payloads inside every unsupported construct and error path
 	npay := 2
 	if thorough {
@@ -1072,6 +1162,44 @@ func (c07Suite) Gen(rng *Rng, tier string, w *bufio.Writer, stats *Stats) {
 	if err != nil {
 		stats.Inc("grammar_load_failed")
 		return
+	}
+	// every alternative of every terminal-only group of the grammar (ASC | ASCENDING | DESC | DESCENDING, dash / arrow variants, …)
+	alts := g.keywordAlternatives()
+	perAlt := 2
+	if thorough {
+		perAlt = 8
+	}
+	hitAll := true
+	var lastTerm *g4Term
+	var dist map[*g4Term]int
+	for _, a := range alts {
+		if a.term != lastTerm {
+			// prefer a derivation that stays inside the represented sub-grammar (no unsupported rule on the way)
+			lastTerm, dist = a.term, g.distances(a.term, true)
+			if _, ok := dist[g.rules["oC_Cypher"]]; !ok {
+				dist = g.distances(a.term, false)
+			}
+		}
+		got := 0
+		for k := 0; k < perAlt*3 && got < perAlt; k++ {
+			c := &c07Gen{g: g, rng: rng, rareW: 0, fuel: 12 + rng.Intn(40), target: a.term, choice: a.alt, dist: dist}
+			var b strings.Builder
+			c.genToward(g.rules["oC_Cypher"], 30, &b)
+			s := strings.TrimSpace(b.String())
+			if !c.hit || s == "" {
+				continue
+			}
+			got++
+			emit("alt:"+a.key(), s)
+		}
+		if got == 0 {
+			hitAll = false
+			stats.Inc("alt_unreached:" + a.key())
+		}
+	}
+	stats.Counters["alt_targets"] = int64(len(alts))
+	if hitAll && len(alts) > 0 {
+		stats.Inc("alt_every_alternative_generated")
 	}
 	ngen := 1500
 	if thorough {
